@@ -95,7 +95,7 @@ def exec_tile(case):
 
 @st.composite
 def strat_tile(draw, tier):
-    return {"planetary": draw(st.booleans()), "depth": draw(st.one_of(st.integers(0, 8), st.integers(9, 22))), "point": draw(gens.sky_points())}
+    return {"planetary": draw(st.booleans()), "depth": draw(st.one_of(st.integers(0, 8), st.integers(9, 26))), "point": draw(gens.sky_points())}
 
 
 def exec_pixel(case):
